@@ -3963,8 +3963,9 @@ fn add_answer_of_service(
     qtype: RRType,
     intf_addrs: Vec<IpAddr>,
 ) {
+    let mut srv_added = false;
     if qtype == RRType::SRV || qtype == RRType::ANY {
-        out.add_answer(
+        srv_added = out.add_answer(
             msg,
             DnsSrv::new(
                 entry_name,
@@ -3990,7 +3991,9 @@ fn add_answer_of_service(
         );
     }
 
-    if qtype == RRType::SRV {
+    // The addresses are additionals of the SRV answer: if that answer was
+    // suppressed by a known answer, they are left out with it.
+    if qtype == RRType::SRV && srv_added {
         for address in intf_addrs {
             out.add_additional_answer(DnsAddress::new(
                 service.get_hostname(),
